@@ -23,6 +23,12 @@ def run(ctx):
     from ..engines import forestrules as E
     E.e3_key_function_agreement(ctx)
     ctx.floor("E3", 6)
+    # the expansion replays the offered pack and re-keys copied rules under a new class database
+    from ..engines import storekeys as SK
+    SK.w4_pack_iteration(ctx)
+    E.e10_memo_keyed_by_arguments(ctx)
+    ctx.floor("W4", 1)
+    ctx.floor("E10", 7)
     ctx.floor("X1", 4)
     ctx.floor("X2", 3)
     ctx.floor("X3", 6)
